@@ -9,6 +9,8 @@ started: while target() runs,
     "exit" -> `pio --version` starts and exits non-zero), for non-zero exits of the build /
     upload (faults "build", "upload") and for a pio that can no longer be started at the
     build / upload although the probe worked (faults "buildexec", "uploadexec"),
+  * an injected file-system failure is the OSError named by "fkind" (PermissionError,
+    ENOSPC, FileNotFoundError, EROFS),
   * the default text encoding of the platform is a scenario parameter ("locale", default
     utf-8): a read_text / write_text on the script or inside the project that does not
     name an encoding gets that one, as it would on a machine with that locale,
@@ -92,6 +94,14 @@ EXEC_FAIL = {
 }
 
 
+FILE_FAIL = {
+    "perm": lambda p: PermissionError(13, "Permission denied (injected)", p),
+    "nospc": lambda p: OSError(28, "No space left on device (injected)", p),
+    "notfound": lambda p: FileNotFoundError(2, "No such file or directory (injected)", p),
+    "rofs": lambda p: OSError(30, "Read-only file system (injected)", p),
+}
+
+
 def pio_state(v):
     if v is True:
         return "ok"
@@ -146,6 +156,10 @@ def run_scenario(sc, scripts, expected, root):
     state = pio_state(sc.get("pio"))
     xkind = sc.get("xkind") or "absent"          # how a start of pio fails at the build / upload
     loc = sc.get("locale") or "utf-8"
+    fkind = sc.get("fkind") or "perm"            # which OSError an injected file-system failure is
+
+    def file_fail(path):
+        return FILE_FAIL.get(fkind, FILE_FAIL["perm"])(path)
     scratch = pathlib.Path(ORIG["mkdtemp"](prefix="sc-", dir=root))
     main_path = scratch / "sketch_main.py"
     src = scripts[sc["script"]]
@@ -199,7 +213,7 @@ def run_scenario(sc, scripts, expected, root):
     def fake_mkdtemp(suffix=None, prefix=None, dir=None):
         events.append(["Mkdtemp"])
         if "mkdtemp" in faults:
-            raise PermissionError(13, "Permission denied (injected)", str(dir or scratch))
+            raise file_fail(str(dir or scratch))
         d = ORIG["mkdtemp"](suffix=suffix, prefix=prefix, dir=str(scratch))
         if st["tmp"] is None:
             st["tmp"] = os.path.abspath(d)
@@ -221,7 +235,7 @@ def run_scenario(sc, scripts, expected, root):
         if os.path.abspath(os.fspath(self)) == main_abs:
             events.append(["ReadMain"])
             if "readmain" in faults:
-                raise PermissionError(13, "Permission denied (injected)", str(self))
+                raise file_fail(str(self))
             a, kw = with_locale(a, kw)
         return ORIG["read_text"](self, *a, **kw)
 
@@ -238,7 +252,7 @@ def run_scenario(sc, scripts, expected, root):
                 events.append(["WriteMain", tag])
                 writes.setdefault("main_arg", sha(data))
                 if "writemain" in faults:
-                    raise PermissionError(13, "Permission denied (injected)", str(self))
+                    raise file_fail(str(self))
             elif r == "platformio.ini":
                 f = ini_fields(read_ini(data)) if isinstance(data, str) else None
                 if f is None:
@@ -253,7 +267,7 @@ def run_scenario(sc, scripts, expected, root):
                 if isinstance(data, str):
                     writes.setdefault("ini_arg", data[:4000])
                 if "writeini" in faults:
-                    raise PermissionError(13, "Permission denied (injected)", str(self))
+                    raise file_fail(str(self))
             else:
                 events.append(["WriteOther", r])
         elif under(self, scratch_abs):
@@ -266,7 +280,7 @@ def run_scenario(sc, scripts, expected, root):
             r = rel(self)
             events.append(["Mkdir", "tmp"] if r == "src" else ["MkdirOther", r])
             if "mkdir" in faults:
-                raise PermissionError(13, "Permission denied (injected)", str(self))
+                raise file_fail(str(self))
         elif outer and under(self, scratch_abs):
             events.append(["MkdirOther", os.path.relpath(os.path.abspath(os.fspath(self)), scratch_abs)])
         st["depth"] += 1
